@@ -7,7 +7,7 @@ export GOFLAGS=-mod=mod GOPROXY=off GOSUMDB=off GOTOOLCHAIN=local
 wt=/tmp/seedwt/$sid; scr=/tmp/seedwt/verif-$sid
 rm -rf $wt $scr; mkdir -p /tmp/seedwt
 git -C /repo worktree add -q --detach $wt HEAD || exit 2
-trap 'git -C /repo worktree remove --force $wt 2>/dev/null; rm -rf $wt $scr' EXIT INT TERM
+[ -n "$SEED_KEEP" ] || trap 'git -C /repo worktree remove --force $wt 2>/dev/null; rm -rf $wt $scr' EXIT INT TERM
 git -C $wt apply /verif/seeded/$sid/patch.diff || { echo "$sid patch does not apply"; exit 2; }
 rsync -a --exclude .git --exclude evidence --exclude replays --exclude seeded /verif/ $scr/
 (cd $scr/harness && go mod edit -replace github.com/paulsonkoly/calc=$wt)
@@ -16,4 +16,5 @@ for id in "$@"; do
   out=$(VERIF_REPO=$wt VERIF_NOSHRINK=1 $scr/run.sh $id ${SEED_TIER:-quick} 2>&1); rc=$?
   case $rc in 1) r=DETECTED;; 0) r=missed;; *) r="harness-error($rc)";; esac
   echo "$sid $id $r"
+  [ -n "$SEED_VERBOSE" ] && echo "$out" | grep -E "VIOLATION|harness|worker" | cut -c1-600 | head -${SEED_VERBOSE}
 done
